@@ -418,6 +418,7 @@ func execRekey(o hx.Op) string {
 		}
 	}
 	var crecv, srecv atomic.Int64
+	var samples []string
 	reader := func(h *ssh.VerifHandshake, n *atomic.Int64) {
 		for {
 			p, err := h.ReadPacket()
@@ -445,6 +446,7 @@ func execRekey(o hx.Op) string {
 		go reader(sh, &srecv)
 		rk, app := o.Int("rk"), o.Int("app")
 		sent := int64(0)
+		length := func(l *tlog) int { l.mu.Lock(); defer l.mu.Unlock(); return len(l.t) }
 		for k := 0; k < rk && status == "ok"; k++ {
 			for j := 0; j < app; j++ {
 				ch.WritePacket([]byte{94, 0, 0, 0, byte(j)})
@@ -478,6 +480,12 @@ func execRekey(o hx.Op) string {
 				}
 				time.Sleep(100 * time.Microsecond)
 			}
+			if status == "ok" {
+				// right after this re-key's NEWKEYS in both directions, before any further packet: sample all four counters
+				cr, cwq, _, _ := ch.SeqNums()
+				sr, swq, _, _ := sh.SeqNums()
+				samples = append(samples, fmt.Sprintf("%d.%d.%d.%d.%d.%d", length(&sc), length(&ss), cr, cwq, sr, swq))
+			}
 		}
 		// trailing application packets after the last NEWKEYS
 		tail := o.Int("tail")
@@ -500,7 +508,7 @@ func execRekey(o hx.Op) string {
 	ce.rs, ce.ws, ce.strict, ce.idone = ch.SeqNums()
 	se.rs, se.ws, se.strict, se.idone = sh.SeqNums()
 	// what one side sent is what the other received (no attacker)
-	return "r" + ce.String("c") + se.String("s") + " dc=" + ss.String() + " ds=" + sc.String() + " sc=" + sc.String() + " ss=" + ss.String()
+	return "r" + ce.String("c") + se.String("s") + " dc=" + ss.String() + " ds=" + sc.String() + " sc=" + sc.String() + " ss=" + ss.String() + " samples=" + hx.JoinStrs(samples)
 }
 
 func execHS(o hx.Op) string {
